@@ -163,12 +163,12 @@ theorem set_matches_iff_some_pattern (n : Nat) (log : List AddCall) (name : Str)
       · exact ⟨a, ha, hai, Or.inr (Or.inr ⟨id, hid, hh⟩)⟩
     obtain ⟨a, ha, hai, hf⟩ := fires
     obtain ⟨p, hp, hv, hmatch⟩ := (callFires_iff a _ rxHits hd.noMarkers).mp hf
-    exact ⟨a, ha, hai, p, hp, hv, hmatch⟩
+    exact ⟨a, ha, hai, p, hp, hmatch, hv⟩
   · rintro ⟨hi, hm⟩
     refine ⟨hi, ?_⟩
     rw [hsets i hi]
     simp only [docMatches, List.any_eq_true, Bool.and_eq_true, beq_iff_eq] at hm
-    obtain ⟨a, ha, hai, p, hp, hv, hmatch⟩ := hm
+    obtain ⟨a, ha, hai, p, hp, hmatch, hv⟩ := hm
     have hf := (callFires_iff a _ rxHits hd.noMarkers).mpr ⟨p, hp, hv, hmatch⟩
     simp only [BuiltSet.matchesSpec, builtOf, setOf, hasPrefixSpec, acContains, hd.map_acNorm]
     simp only [Bool.or_eq_true, List.any_eq_true, List.mem_map, List.mem_flatMap, callsFor,
